@@ -1,11 +1,15 @@
 //! element-type / output-type dispatch
 use crate::proto::Req;
 
+/// the float null: NaN of either sign (the hardware produces sign-bit NaNs for `0.0 / 0.0`), alternating
+/// by position so that both occur in every series with two or more nulls
+pub fn nan64(i: usize) -> f64 { if i % 2 == 0 { f64::NAN } else { f64::from_bits(0xFFF8_0000_0000_0000) } }
+pub fn nan32(i: usize) -> f32 { if i % 2 == 0 { f32::NAN } else { f32::from_bits(0xFFC0_0000) } }
 pub fn as_f64(v: &[Option<f64>]) -> Vec<f64> {
-    v.iter().map(|x| x.unwrap_or(f64::NAN)).collect()
+    v.iter().enumerate().map(|(i, x)| x.unwrap_or(nan64(i))).collect()
 }
 pub fn as_f32(v: &[Option<f64>]) -> Vec<f32> {
-    v.iter().map(|x| x.map(|y| y as f32).unwrap_or(f32::NAN)).collect()
+    v.iter().enumerate().map(|(i, x)| x.map(|y| y as f32).unwrap_or(nan32(i))).collect()
 }
 pub fn as_i32(v: &[Option<f64>]) -> Vec<i32> {
     v.iter().map(|x| x.expect("null in integer series") as i32).collect()
